@@ -164,7 +164,15 @@ func vfCorpusScan(minSize, maxSize int64) []vfCorpusCand {
 						feat[k] = true
 						objFeat[addr] = append(objFeat[addr], k)
 					}
+					ncont := 0
 					for _, m := range hdr.Messages {
+						if uint16(m.Type) == 0x10 {
+							// a header continued more than once: one continuation can then be made
+							// to name a block another one has already led to
+							if ncont++; ncont == 2 {
+								add(fmt.Sprintf("ohdr-v%d/continued-more-than-once", hdr.Version))
+							}
+						}
 						add(fmt.Sprintf("ohdr-v%d/msg-%#x", hdr.Version, uint16(m.Type)))
 						if uint16(m.Type) == 0x0B {
 							if fp, err := core.ParseFilterPipelineMessage(m.Data); err == nil && fp != nil {
